@@ -20,7 +20,8 @@ HARNESS = dict(
     sources=["cxx_c03.cc"],
     repo_sources=["dune/common/exceptions.cc", "dune/common/stdstreams.cc"],
     # the InvalidIndexSetState checks of indexset.hh are compiled under `#ifndef NDEBUG`
-    flags=["-UNDEBUG"],
+    # -g1: line tables for sanitizer reports, but not the (expensive) full debug info of eleven instantiations
+    flags=["-UNDEBUG", "-g1"],
     libs=[],
 )
 RULE = ("case = one whole history `<N> : op;op;...` for chunk size N in {1,2,3,100}: 1-5 resize phases over a global range of width "
@@ -48,13 +49,13 @@ def batches(tier, seed):
         res = [dict(args=["--seed", _seed(seed, i), "--cases", str(n // parts), "--tier", tier], tag="g%d" % i,
                     timeout=60) for i in range(parts)]
         # a slice of the exhaustive family (<= 2 rounds over 4 globals), rotating with the seed
-        res.append(dict(args=["--seed", "1", "--cases", "1300", "--enum", "1", "--offset", str((seed * 1300) % 10368)],
+        res.append(dict(args=["--seed", "1", "--cases", "1300", "--enum", "1", "--offset", str((seed * 1300) % 15552)],
                         tag="enum", timeout=60))
         return res
     n, parts = 240000, 12
     res = [dict(args=["--seed", _seed(seed, 20 + i), "--cases", str(n // parts), "--tier", tier], tag="g%d" % i,
                 timeout=900) for i in range(parts)]
-    res.append(dict(args=["--seed", "1", "--cases", "10368", "--enum", "1"], tag="enum", timeout=600))
+    res.append(dict(args=["--seed", "1", "--cases", "15552", "--enum", "1"], tag="enum", timeout=600))
     return res
 
 
